@@ -150,3 +150,42 @@ CACHES = [
     dict(kind='state', file='mpmath/ctx_base.py', func='StandardBaseContext.maxcalls.f_maxcalls_wrapped',
          container='counter', why='call counter of maxcalls'),
 ]
+
+# ---------------------------------------------------------------------------
+# Engine B (C10)
+# ---------------------------------------------------------------------------
+# Documented exact operations: (file, qualname, site text or None for the whole
+# function, reason).  Only these may hand out a value that did not pass a
+# rounding step at the working precision.
+B_EXACT_OPS = [
+    ('mpmath/ctx_mp_python.py', 'PythonMPContext.convert', None,
+     'convert/mpmathify of int, float, complex, mpf, mpc is documented as lossless'),
+    ('mpmath/ctx_mp_python.py', 'PythonMPContext.npconvert', None,
+     'conversion of numpy scalars is lossless (part of convert)'),
+    ('mpmath/ctx_mp_python.py', 'PythonMPContext.make_mpf', None,
+     'the raw constructor itself: every *caller* is an obligation site'),
+    ('mpmath/ctx_mp_python.py', 'PythonMPContext.make_mpc', None,
+     'the raw constructor itself: every *caller* is an obligation site'),
+    ('mpmath/ctx_mp_python.py', '_mpf.__setstate__', None,
+     'unpickling restores the pickled value exactly (C40)'),
+    ('mpmath/ctx_mp_python.py', '_mpc.__setstate__', None,
+     'unpickling restores the pickled value exactly (C40)'),
+    ('mpmath/ctx_mp_python.py', '_mpc.<lambda@real>', None, 'component access is exact'),
+    ('mpmath/ctx_mp_python.py', '_mpc.<lambda@imag>', None, 'component access is exact'),
+    ('mpmath/ctx_mp_python.py', '_mpf.mpf_convert_lhs', None,
+     'wraps the exact conversion of the left operand of a reflected operator; '
+     'the operator then rounds'),
+    ('mpmath/ctx_mp_python.py', '_mpc.__new__', 'real._mpc_',
+     'duck-typed conversion of a foreign object exposing _mpc_ (every mpc of any '
+     'context takes the rounding branch above it): treated like convert'),
+    ('mpmath/ctx_mp.py', 'MPContext.ldexp', None, 'documented exact operation'),
+    ('mpmath/ctx_mp.py', 'MPContext.frexp', None, 'documented exact operation'),
+]
+
+# Sites where the analysis cannot classify the value (not: classifies it as
+# unrounded).  (file, qualname, return/statement text or None, reason)
+B_UNDECIDED = [
+    ('mpmath/ctx_mp.py', 'MPContext.hypsum', None,
+     'value comes from the run-time generated summator (libhyper.make_hyp_summator), '
+     'which is outside the analysed source (DESIGN section 8)'),
+]
